@@ -7,6 +7,7 @@ import (
 	"fmt"
 	"go/types"
 	"math/big"
+	"regexp"
 	"sort"
 	"strings"
 )
@@ -58,8 +59,17 @@ func q(s string) string {
 	return "|" + s + "|"
 }
 
+var aliasRe = regexp.MustCompile(`\b(byte|rune)\b`)
+
 func typeKey(t types.Type) string {
-	return types.TypeString(t, func(p *types.Package) string { return p.Name() })
+	s := types.TypeString(t, func(p *types.Package) string { return p.Name() })
+	// byte and rune are aliases: one heap per underlying type
+	return aliasRe.ReplaceAllStringFunc(s, func(m string) string {
+		if m == "byte" {
+			return "uint8"
+		}
+		return "int32"
+	})
 }
 
 func isTime(t types.Type) bool {
